@@ -106,13 +106,21 @@ class Box:
                 stride = strides[1]
                 skirt_top_remainder = skirt[0] % upscaling_factor
 
-                total_stride = stride * (new_end_coord[-3] - new_start_coord[-3] - 1)
+                # Number of OFM rows of the stripe (the end that was clipped to the IFM height above is too small when the
+                # OFM is taller than the IFM because a fused PAD pads more than SAME padding would)
+                stripe_end = original_end_coord[-3] if upscaling_factor == 1 else new_end_coord[-3]
+                total_stride = stride * (stripe_end - new_start_coord[-3] - 1)
                 new_start_coord[-3] = new_start_coord[-3] * stride - skirt[0] + skirt_top_remainder
 
                 pad_top = max(0, 0 - new_start_coord[-3]) + skirt_top_remainder
                 new_start_coord[-3] = max(new_start_coord[-3], 0)
 
-                if (new_end_coord[-3] * stride + skirt[2]) > (ifm_shape.height * upscaling_factor):
+                # Without upscaling the bottom padding is always what the kernel, after its last stride, reaches beyond
+                # the IFM. The bottom skirt is derived from SAME-style padding and is too small to tell when a fused
+                # PAD pads more than that
+                if upscaling_factor == 1 or (new_end_coord[-3] * stride + skirt[2]) > (
+                    ifm_shape.height * upscaling_factor
+                ):
                     # pad_bottom is calculated based the diff between the end position of the weight kernel,
                     # after last stride and the ifm height.
                     if upscaling_factor != 1 and original_end_coord[-3] > ifm_shape.height * upscaling_factor:
